@@ -11,6 +11,7 @@ evidence).  Panics (assert terminators, modelled unwrap/expect/index failures,
 Everything that is not understood raises Unsupported: an encoding is never
 produced from a statement that was skipped.
 """
+import os
 import re
 import collections
 import z3
@@ -588,6 +589,9 @@ class Executor:
         self.prune_switch = False      # solver-based pruning of switch targets (slow; off)
         self.base_dom = {}
         self.memo_pure = True
+        self.abstract_types = {}       # type base name -> bit width: values of that type are opaque tokens with equality only
+        self.havoc_log = []
+        self.havoc_patterns = []       # regexes of callees whose result is an unconstrained value of the destination type
         self.var_bounds = {}           # name of a bit-vector variable -> (lo, hi) known from the harness precondition
         self.key_cursors = True        # never merge states that disagree on a concrete usize local
         self.solver_pruning = False    # ask the solver whether a guard is satisfiable before exploring (slow)
@@ -673,6 +677,8 @@ class Executor:
             return BoxV(self.fresh_value(generic_args(ty)[0], name + '*', depth - 1, env, expand))
         if re.fullmatch(r'[A-Z]', b):
             return z3.BitVec(name, 16)      # generic parameter: an uninterpreted 16-bit token
+        if b in self.abstract_types:
+            return z3.BitVec(name, self.abstract_types[b])
         if expand is not None and b not in ('Option', 'Result') and not expand(b):
             return Opaque('%s:%s' % (name, ty))
         edef = self.defs.find_enum(base_name(ty))
@@ -686,6 +692,8 @@ class Executor:
             # type T in variant A and one in variant B can be the same symbolic value.  This keeps a
             # depth-d symbolic type linear in d instead of exponential, and loses no concrete value.
             slots = {}
+            saved_module = self.defs.prefer_module
+            self.defs.prefer_module = edef.module
             for vname, d, fields in edef.variants:
                 needs_box = any(re.search(r'\bBox<', ft) for _, ft in fields)
                 if needs_box and depth <= 0:
@@ -694,6 +702,7 @@ class Executor:
                 occ = collections.Counter()
                 for i, (fname, ft) in enumerate(fields):
                     ft = subst(ft, targs).replace('Self', selfty)
+                    ft = self.defs.expand_alias(ft, edef.module)
                     key = (ft, occ[ft])
                     occ[ft] += 1
                     if key not in slots:
@@ -702,12 +711,23 @@ class Executor:
                     fv.append(slots[key])
                 variants[vname] = tuple(fv)
                 allowed.append(d)
+            self.defs.prefer_module = saved_module
             self.assume(zor(*[discr == bv(d, 64) for d in allowed]))
             self.base_dom[discr.decl().name()] = frozenset(allowed)
             return EnumV(edef, discr, variants, targs)
         sdef = self.defs.find_struct(base_name(ty))
         if sdef is not None and sdef.fields:
             targs = dict(zip(sdef.generics, generic_args(ty)))
+            saved_module = self.defs.prefer_module
+            self.defs.prefer_module = sdef.module
+            try:
+                return self._fresh_struct(sdef, targs, name, depth, expand)
+            finally:
+                self.defs.prefer_module = saved_module
+        return Opaque('%s:%s' % (name, ty))
+
+    def _fresh_struct(self, sdef, targs, name, depth, expand):
+        if True:
             return Agg([self.fresh_value(subst(ft, targs), '%s.%s' % (name, fname or i), depth, None, expand)
                         for i, (fname, ft) in enumerate(sdef.fields)], sdef.name)
         return Opaque('%s:%s' % (name, ty))
@@ -1619,6 +1639,7 @@ class Executor:
         if k == 'call':
             dest, callee, args, ret_bb = t[1], t[2], t[3], t[4]
             argv = [self.eval_operand(st, frame, fn, a) for a in args]
+            self._ret_ty = self.type_of_place(fn, dest) if dest is not None else '()'
             res = self.do_call(fn, callee, argv, guard, st)
             outcomes = res if isinstance(res, list) else [(res[0], res[1], st)]
             edges = []
@@ -1637,6 +1658,13 @@ class Executor:
 
     # ------------------------------------------------------------------ calls
     def do_call(self, fn, callee, argv, guard, st):
+        for hp in self.havoc_patterns:
+            if re.search(hp, callee):
+                self.used_models['havoc: ' + hp] += 1
+                self.fresh_n += 1
+                hv = self.fresh_value(self._ret_ty, 'havoc!%d' % self.fresh_n, depth=0, expand=lambda b: False)
+                self.havoc_log.append((callee, hv))
+                return guard, hv
         for rx, handler, label in self.models:
             m = rx.match(callee)
             if m:
@@ -1711,7 +1739,7 @@ class Executor:
             if not m:
                 continue
             path, l1, c1, l2, c2, meth = m.group(1), int(m.group(2)), int(m.group(3)), int(m.group(4)), int(m.group(5)), m.group(6)
-            full = '/repo/' + path
+            full = os.path.join(os.environ.get('VERIF_REPO', '/repo'), path)
             if full not in srccache:
                 try:
                     srccache[full] = open(full).read().split('\n')
